@@ -1,0 +1,64 @@
+//go:build verif
+
+package simhook
+
+import "net"
+
+// Enabled reports whether the simulation hooks are compiled in.
+const Enabled = true
+
+// The function variables below are installed by a simulator before any scrapligo object is used
+// and are never changed while library goroutines run; nil means no-op.
+var (
+	EnterFn   func(role string)                  //nolint:gochecknoglobals
+	YieldFn   func(point string)                 //nolint:gochecknoglobals
+	PollFn    func(point string)                 //nolint:gochecknoglobals
+	AcquireFn func(id interface{}, name string)  //nolint:gochecknoglobals
+	ReleaseFn func(id interface{}, name string)  //nolint:gochecknoglobals
+	DialFn    func(network, addr string) net.Conn //nolint:gochecknoglobals
+)
+
+// Enter names the calling goroutine's role.
+func Enter(role string) {
+	if EnterFn != nil {
+		EnterFn(role)
+	}
+}
+
+// Yield marks an interleaving point: the simulator may park the calling goroutine here.
+func Yield(point string) {
+	if YieldFn != nil {
+		YieldFn(point)
+	}
+}
+
+// Poll marks an interleaving point inside a loop that has no blocking call of its own.
+func Poll(point string) {
+	if PollFn != nil {
+		PollFn(point)
+	}
+}
+
+// Acquire announces the intent to take the lock identified by id; the simulator returns only
+// once its model of that lock is free.
+func Acquire(id interface{}, name string) {
+	if AcquireFn != nil {
+		AcquireFn(id, name)
+	}
+}
+
+// Release announces that the lock identified by id has been released.
+func Release(id interface{}, name string) {
+	if ReleaseFn != nil {
+		ReleaseFn(id, name)
+	}
+}
+
+// Dial lets a simulator provide the connection for network/addr; nil means "dial for real".
+func Dial(network, addr string) net.Conn {
+	if DialFn != nil {
+		return DialFn(network, addr)
+	}
+
+	return nil
+}
